@@ -138,6 +138,181 @@ static std::string with_ref(bool has_ref, const std::string &ref, const std::str
     return line + (ref == value ? " ref=ok" : " ref=BAD");
 }
 
+
+// ------------------------------------------------------------------ round 9 (lesson h): long inputs in compact form
+// `long <kind> <params…> <seg>+`, seg = rep:<hex pattern>:<n> (pattern repeated cyclically, n bytes) | prng:<seed>:<n>
+// (x = 1664525·x + 1013904223 mod 2^32, byte = x >> 24). Long outputs are compared through their length and FNV-1a/64.
+static uint64_t fnv64(const uint8_t *p, size_t n) {
+    uint64_t h = 14695981039346656037ull;
+    for (size_t i = 0; i < n; ++i) { h ^= p[i]; h *= 1099511628211ull; }
+    return h;
+}
+static uint64_t fnv64(const std::string &t) { return fnv64((const uint8_t *)t.data(), t.size()); }
+static bool canon_u64(const std::string &t, uint64_t &v) { return vh::to_u64(t, v) && std::to_string(v) == t; }
+static bool parse_seg(const std::string &w, Bytes &data) {
+    auto c1 = w.find(':'); if (c1 == std::string::npos) return false;
+    auto c2 = w.find(':', c1 + 1); if (c2 == std::string::npos || w.find(':', c2 + 1) != std::string::npos) return false;
+    std::string kind = w.substr(0, c1), mid = w.substr(c1 + 1, c2 - c1 - 1), cnt = w.substr(c2 + 1);
+    uint64_t n = 0; if (!canon_u64(cnt, n) || n > (1u << 24) + 64 || data.size() + n > (1u << 24) + 64) return false;
+    if (kind == "rep") {
+        Bytes pat; if (!vh::unhex(mid, pat) || pat.empty()) return false;
+        for (uint64_t i = 0; i < n; ++i) data.push_back(pat[i % pat.size()]);
+        return true;
+    }
+    if (kind == "prng") {
+        uint64_t sd = 0; if (!canon_u64(mid, sd) || sd >= (1ull << 32)) return false;
+        uint32_t x = (uint32_t)sd;
+        for (uint64_t i = 0; i < n; ++i) { x = x * 1664525u + 1013904223u; data.push_back((uint8_t)(x >> 24)); }
+        return true;
+    }
+    return false;
+}
+static bool parse_cuts(const std::string &w, size_t total, std::vector<size_t> &cuts) {
+    if (w == "-") return true;
+    size_t from = 0, lo = 0;
+    while (true) {
+        auto c = w.find(',', from);
+        std::string t = w.substr(from, c == std::string::npos ? std::string::npos : c - from);
+        uint64_t v = 0; if (!canon_u64(t, v) || v < lo || v > total) return false;
+        cuts.push_back((size_t)v); lo = (size_t)v;
+        if (c == std::string::npos) return true;
+        from = c + 1;
+    }
+}
+static bool run_long(const std::vector<std::string> &w, bool has_ref, const std::string &ref, std::vector<std::string> &out) {
+    if (w.size() < 3) return false;
+    const std::string &kind = w[1];
+    std::vector<std::string> params; Bytes data; bool in_segs = false;
+    for (size_t i = 2; i < w.size(); ++i) {
+        bool is_seg = w[i].find(':') != std::string::npos;
+        if (is_seg) { in_segs = true; if (!parse_seg(w[i], data)) return false; }
+        else { if (in_segs) return false; params.push_back(w[i]); }
+    }
+    if (!in_segs) return false;
+    size_t n = data.size();
+    bool small = n <= (1u << 20) + 64;
+    std::string head = "M long.in len=" + std::to_string(n) + " fnv=" + std::to_string(fnv64(data.data(), n));
+    uint64_t v = 0, c = 0; bool flag = false; util::Endian e;
+    Exact in(data);
+    if (kind == "sum8" && params.empty()) {
+        out.push_back(head); out.push_back("P long.sum8 " + std::to_string(util::CalcCheckSum8(in.get(), n))); return true;
+    }
+    if (kind == "sum16" && params.empty()) {
+        out.push_back(head); out.push_back("P long.sum16 " + std::to_string(util::CalcCheckSum16(in.get(), n))); return true;
+    }
+    if (kind == "crc16" && params.size() == 1 && vh::to_u64(params[0], v) && v < 65536) {
+        out.push_back(head); out.push_back("P long.crc16 " + std::to_string(util::CalcCrc16(in.get(), n, (uint16_t)v))); return true;
+    }
+    if (kind == "crc32" && params.size() == 1 && vh::to_u64(params[0], v) && v < (1ull << 32)) {
+        std::string r = std::to_string(util::CalcCrc32(in.get(), n, (uint32_t)v));
+        out.push_back(head); out.push_back(with_ref(has_ref, ref, r, "P long.crc32 " + r)); return true;
+    }
+    if ((kind == "crc32.chain" || kind == "crc16.chain") && params.size() == 2 && vh::to_u64(params[0], v) && vh::to_u64(params[1], c)
+        && v < (kind == "crc32.chain" ? (1ull << 32) : 65536ull) && c <= n) {
+        Exact ia(Bytes(data.begin(), data.begin() + (long)c)), ib(Bytes(data.begin() + (long)c, data.end()));
+        out.push_back(head);
+        if (kind == "crc32.chain") {
+            uint32_t W = util::CalcCrc32(in.get(), n, (uint32_t)v);
+            uint32_t C = util::CalcCrc32(ib.get(), ib.n, ~util::CalcCrc32(ia.get(), ia.n, (uint32_t)v));
+            out.push_back("P long.crc32.chain whole=" + std::to_string(W) + " chained=" + std::to_string(C));
+        } else {
+            uint16_t W = util::CalcCrc16(in.get(), n, (uint16_t)v);
+            uint16_t C = util::CalcCrc16(ib.get(), ib.n, util::CalcCrc16(ia.get(), ia.n, (uint16_t)v));
+            out.push_back("P long.crc16.chain whole=" + std::to_string(W) + " chained=" + std::to_string(C));
+        }
+        return true;
+    }
+    if (kind == "md5" && params.size() == 1) {
+        std::vector<size_t> cuts; if (!parse_cuts(params[0], n, cuts)) return false;
+        if (n > 140000 && !has_ref) return false;
+        crypto::MD5 md5; size_t lo = 0;
+        cuts.push_back(n);
+        for (size_t cpos : cuts) { md5.update(in.get() + lo, cpos - lo); lo = cpos; }
+        Exact dig(16); md5.finish(dig.get());
+        std::string r = vh::hex(dig.get(), 16);
+        out.push_back(head); out.push_back(with_ref(has_ref, ref, r, "P long.md5 " + r)); return true;
+    }
+    if (kind == "b64" && params.empty() && small && n > 0) {
+        std::string t = util::base64::Encode(in.get(), n);
+        Exact text(Bytes(t.begin(), t.end())), o(n), o2(n - 1);
+        size_t dl = util::base64::DecodeLength((const char *)text.get(), text.n);
+        size_t r = util::base64::Decode((const char *)text.get(), text.n, o.get(), n);
+        Bytes ov; size_t r2 = util::base64::Decode(t, ov);
+        bool same = r == n && memcmp(o.get(), data.data(), n) == 0 && r2 == n && ov == data && t.size() == util::base64::EncodeLength(n);
+        size_t rs = util::base64::Decode((const char *)text.get(), text.n, o2.get(), n - 1);
+        out.push_back(head);
+        out.push_back("P long.b64 enclen=" + std::to_string(t.size()) + " encfnv=" + std::to_string(fnv64(t)) + " declen=" + std::to_string(dl)
+                      + " dec=" + std::to_string(r) + " same=" + (same ? "1" : "0") + " short=" + std::to_string(rs));
+        return true;
+    }
+    if (kind == "b64bad" && params.size() == 1 && small && n > 0 && vh::to_u64(params[0], v) && v < (4 * n + 2) / 3) {
+        std::string t = util::base64::Encode(in.get(), n);
+        t[(size_t)v] = '*';
+        Exact text(Bytes(t.begin(), t.end())), o(n);
+        size_t r = util::base64::Decode((const char *)text.get(), text.n, o.get(), n);
+        Bytes ov; size_t r2 = util::base64::Decode(t, ov);
+        out.push_back(head); out.push_back("P long.b64bad ret=" + std::to_string(r) + " vec=" + std::to_string(r2)); return true;
+    }
+    if (kind == "hexdec" && params.empty() && small) {
+        std::string t = n ? vh::hex(data.data(), n) : std::string();
+        Bytes o; std::string exc = "-";
+        try {
+            size_t r = util::string::HexStrToRawData(t, o, "");
+            if (r != o.size()) exc = "RET-NOT-SIZE";
+        } catch (const util::string::NotAZaz09Exception &) { exc = "NotAZaz09";
+        } catch (const util::string::MoreThan2CharException &) { exc = "MoreThan2Char";
+        } catch (const std::out_of_range &) { exc = "out_of_range"; }
+        out.push_back(head);
+        out.push_back("P long.hexdec exc=" + exc + " len=" + std::to_string(o.size()) + " fnv=" + std::to_string(fnv64(o.data(), o.size())));
+        if (n > 0 && n <= 65535) {
+            Exact ob(n);
+            size_t r = util::string::HexStrToRawData(t, ob.get(), (uint16_t)n);
+            out.push_back("P long.hexdec buf ret=" + std::to_string(r) + " same=" + ((r == n && memcmp(ob.get(), data.data(), n) == 0) ? "1" : "0"));
+        }
+        return true;
+    }
+    if (kind == "hexenc" && params.size() == 1 && bool01(params[0], flag) && n <= 65535) {
+        std::string t = util::string::RawDataToHexStr(in.get(), (uint16_t)n, flag, "");
+        out.push_back(head); out.push_back("P long.hexenc len=" + std::to_string(t.size()) + " fnv=" + std::to_string(fnv64(t))); return true;
+    }
+    if (kind == "url" && params.size() == 1 && bool01(params[0], flag) && small) {
+        std::string src = str_of(data);
+        std::string enc = http::UrlEncode(src, flag);
+        bool same = false;
+        try { same = http::UrlDecode(enc) == src; } catch (const std::out_of_range &) { same = false; }
+        out.push_back(head);
+        out.push_back("P long.url enclen=" + std::to_string(enc.size()) + " encfnv=" + std::to_string(fnv64(enc)) + " same=" + (same ? "1" : "0"));
+        return true;
+    }
+    if (kind == "ser" && params.size() == 1 && endian_of(params[0], e) && small) {
+        Bytes block;
+        util::Serializer s(block, e);
+        bool r1 = s.append(in.get(), n);
+        bool r2 = s.append((uint32_t)0x01020304);
+        Exact blk(block), o(n);
+        util::Deserializer d(blk.get(), blk.n, e);
+        bool back = d.fetch(o.get(), n) && memcmp(o.get(), data.data(), n) == 0;
+        uint32_t x = 0; d.fetch(x);
+        out.push_back(head);
+        out.push_back(std::string("P long.ser ret=") + (r1 ? "1" : "0") + (r2 ? "1" : "0") + " pos=" + std::to_string(s.pos()) + " fnv="
+                      + std::to_string(fnv64(block.data(), block.size())) + " back=" + (back ? "1" : "0") + " int=" + std::to_string(x)
+                      + " dpos=" + std::to_string(d.pos()));
+        return true;
+    }
+    if (kind == "serraw" && params.size() == 2 && endian_of(params[0], e) && small && vh::to_u64(params[1], v) && v <= 8) {
+        Exact buf(n + (size_t)v);
+        util::Serializer s(buf.get(), buf.n, e);
+        bool r1 = s.append(in.get(), n);
+        bool r2 = s.append((uint32_t)0x01020304);
+        bool r3 = s.append(in.get(), n);
+        out.push_back(head);
+        out.push_back(std::string("P long.serraw ret=") + (r1 ? "1" : "0") + (r2 ? "1" : "0") + (r3 ? "1" : "0") + " pos=" + std::to_string(s.pos())
+                      + " fnv=" + std::to_string(fnv64(buf.get(), s.pos() <= buf.n ? s.pos() : 0)));
+        return true;
+    }
+    return false;
+}
+
 // returns false for bad-op; appends output lines to out
 static bool run(std::vector<std::string> w, std::vector<std::string> &out) {
     bool has_ref = false; std::string ref;
@@ -151,6 +326,7 @@ static bool run(std::vector<std::string> w, std::vector<std::string> &out) {
     if (!w.empty() && w.back().compare(0, 4, "ref=") == 0) { has_ref = true; ref = w.back().substr(4); w.pop_back(); }
     if (w.empty()) return false;
     const std::string &op = w[0];
+    if (op == "long") return run_long(w, has_ref, ref, out);
     Bytes a, b; uint64_t n = 0, v = 0; bool flag = false; util::Endian e; int width = 0;
 
     // ------------------------------------------------------------------ Base64
@@ -750,6 +926,14 @@ static bool run(std::vector<std::string> w, std::vector<std::string> &out) {
             aes.cipher(in.get(), o.get()); aes.invcipher(o.get(), o2.get());
             out.push_back(memcmp(o2.get(), b.data(), 16) == 0 ? "P aes.rt ok" : "P aes.rt FAIL got=" + vh::hex(o2.get(), 16));
         }
+        return true;
+    }
+    // AES(nullptr) used before any setKey: round keys are whatever the memory holds; only invcipher(cipher(b)) == b is observable
+    if (op == "aes.unkeyed" && w.size() == 2 && vh::unhex(w[1], a) && a.size() == 16) {
+        crypto::AES aes(nullptr);
+        Exact in(a), o(16), o2(16);
+        aes.cipher(in.get(), o.get()); aes.invcipher(o.get(), o2.get());
+        out.push_back(std::string("P aes.unkeyed rt=") + (memcmp(o2.get(), a.data(), 16) == 0 ? "1" : "0"));
         return true;
     }
     // AES(k1 or nullptr) ; setKey(k2) ; cipher / invcipher of each block with the same object, in place
